@@ -823,6 +823,7 @@ type boltBucket struct {
 // time, a transaction sees the state committed when it began, Commit installs the writer's
 // state or fails and rolls back, Close waits for every open transaction.
 type boltDB struct {
+	path     string
 	buckets  map[string]*boltBucket
 	openRead int
 	writer   *boltTx
@@ -978,6 +979,37 @@ func (in *Interp) installBoltStubs() {
 		}
 		return tx
 	}
+	boltErr := func(in *Interp, name string) Value {
+		p := in.prog.ImportedPackage("go.etcd.io/bbolt/errors")
+		if p != nil && p.Var(name) != nil {
+			return load(in.global(p.Var(name)), errT())
+		}
+		return in.newErrorString("bbolt: " + name)
+	}
+	// bbolt.Open: the file lock - a path that is open cannot be opened again (Open gives up with a timeout)
+	S[bb+".Open"] = func(in *Interp, fn *ssa.Function, a []Value) Value {
+		path, ok := a[0].(StrV).concrete()
+		if !ok {
+			in.abort("unsupported", "bbolt.Open with a symbolic path")
+		}
+		for _, db := range in.boltDBs {
+			if db.path == path && !db.closed {
+				return TupleV{[]Value{PtrV{}, boltErr(in, "ErrTimeout")}}
+			}
+		}
+		l := &Loc{v: BVu(8, 0)}
+		in.boltDBs[l] = &boltDB{path: path, buckets: map[string]*boltBucket{}}
+		return TupleV{[]Value{PtrV{loc: l}, IfaceV{}}}
+	}
+	in.intrinsics["vboltlocked"] = func(in *Interp, args []Value) Value {
+		path, _ := args[0].(StrV).concrete()
+		for _, db := range in.boltDBs {
+			if db.path == path && !db.closed {
+				return Bool(true)
+			}
+		}
+		return Bool(false)
+	}
 	in.intrinsics["vboltfaults"] = func(in *Interp, args []Value) Value {
 		dbOf(in, args[0]).faults = args[1].(*Term).True()
 		return nil
@@ -989,13 +1021,6 @@ func (in *Interp) installBoltStubs() {
 			n++
 		}
 		return BVi(64, int64(n))
-	}
-	boltErr := func(in *Interp, name string) Value {
-		p := in.prog.ImportedPackage("go.etcd.io/bbolt/errors")
-		if p != nil && p.Var(name) != nil {
-			return load(in.global(p.Var(name)), errT())
-		}
-		return in.newErrorString("bbolt: " + name)
 	}
 	envFault := func(in *Interp, db *boltDB) bool {
 		return db.faults && in.choose(func() []int { return []int{0, 1} }) == 1
